@@ -38,10 +38,10 @@ import (
 // pipeline's functions is left and the channels handed to the caller are closed; else `dirty`.
 
 type fullScen struct {
-	p, fault, cancel, role string
-	n, bt, peers           int
-	reps                   int
-	raw                    string
+	p, fault, cancel, role, mode string
+	n, bt, peers                 int
+	reps                         int
+	raw                          string
 }
 
 func parseFull(line string) *fullScen {
@@ -51,7 +51,7 @@ func parseFull(line string) *fullScen {
 			m[w[:i]] = w[i+1:]
 		}
 	}
-	f := &fullScen{p: m["p"], fault: m["fault"], cancel: m["cancel"], role: m["role"], n: 3, bt: 1, reps: 3, raw: line}
+	f := &fullScen{p: m["p"], fault: m["fault"], cancel: m["cancel"], role: m["role"], mode: m["mode"], n: 3, bt: 1, reps: 3, raw: line}
 	if v := m["n"]; v != "" {
 		f.n = h.Atoi(v)
 	}
@@ -104,6 +104,8 @@ func runFullOnce(f *fullScen) (string, error) {
 		baseline[g.id] = true
 	}
 	switch {
+	case f.p == "grouping" && f.mode == "dup":
+		return fullGroupingDup(f, self, baseline)
 	case f.p == "grouping":
 		return fullGrouping(f, self, baseline)
 	case strings.HasPrefix(f.p, "query."):
@@ -224,6 +226,49 @@ func fullGrouping(f *fullScen, self int, baseline map[int]bool) (string, error) 
 		return "clean", nil
 	}
 	return fmt.Sprintf("dirty leak=%s open=%d", strings.Join(left, ","), open), nil
+}
+
+// fullGroupingDup: the REAL handleGrouping (deadline, error handling, drain loop) of one node whose
+// peers are silent, called `calls` times for the same group id: the second and later calls find the
+// group id in the table (a duplicate LogGrouping event through a second endpoint, or a retry after
+// a failed session) and pdkg.Grouping fails. bt=0: the session deadline has already passed, so
+// everything that can end has ended when the handler returns.
+func fullGroupingDup(f *fullScen, self int, baseline map[int]bool) (string, error) {
+	var ids [][]byte
+	for i := 0; i < 3; i++ {
+		d := sha256.Sum256([]byte(fmt.Sprintf("c14-member-%d", i)))
+		ids = append(ids, d[:20])
+	}
+	net := dkgnet.NewNet(ids)
+	net.AckWait = 50 * time.Millisecond
+	net.Policy = func(from, to int, kind string, attempt int) dkgnet.Action { return dkgnet.Action{Drop: true} }
+	d := dkg.NewPDKG(net.Node(0, ids), suites.MustFind("bn256"))
+	go d.Loop()
+	chain := &doubles.Chain{BlockTime: uint64(f.bt)}
+	node := dosnode.VerifNewNode(ids[0], net.Node(0, ids), chain, d, 21, doubles.NewLogger())
+	defer node.VerifCancel()
+	calls := f.peers
+	if calls < 2 {
+		calls = 2
+	}
+	for i := 0; i < calls; i++ {
+		done := make(chan struct{})
+		go func() { node.VerifPipesHandleGrouping(ids, "c14dup"); close(done) }()
+		select {
+		case <-done:
+		case <-time.After(3 * time.Second):
+			return "dirty returned=false call=" + fmt.Sprint(i), nil
+		}
+	}
+	time.Sleep(20 * time.Millisecond)
+	if !settle(self) {
+		return "unsettled", nil
+	}
+	left := leftovers(baseline, self, []string{"dkg", "dosnode"}, map[string]bool{"dkg.Loop": true})
+	if len(left) == 0 {
+		return "clean", nil
+	}
+	return "dirty leak=" + strings.Join(left, ","), nil
 }
 
 func isClosed(c chan [5]*big.Int) bool {
